@@ -2,7 +2,8 @@
 # Build the stable part of the framework (lib/) and a first full model build, offline.
 set -e
 cd "$(dirname "$0")"
-export PYTHONPATH=/repo/src:/verif PYTHONHASHSEED=0
+export VERIF_REPO="${VERIF_REPO:-/repo}"
+export PYTHONPATH="$VERIF_REPO/src:$PWD" PYTHONHASHSEED=0
 mkdir -p build evidence
 /venv/bin/python -m tools.gen
 cd coq
